@@ -144,6 +144,27 @@ def gen_chain(rng):
     return {"files": files, "dirs": [], "applied": None, "series": series, "patches": patches}
 
 
+def gen_chain_stale(rng):
+    """a chain workspace in which some alias names DO exist on disk at the start (stale foo.c.orig files) and are
+    deleted by the first patches: which of the two names a later file patch applies to is decided by what is there
+    when it runs, not by what was on disk when the work was handed out"""
+    w = gen_chain(rng)
+    used = sorted({m for t in w["patches"].values() for m in __import__("re").findall(rb"^--- a/(alias\d+)$", t, __import__("re").M)})
+    if not used:
+        return w
+    stale = rng.sample(used, rng.randint(1, min(2, len(used))))
+    head = b""
+    patches = dict(w["patches"])
+    for i, a in enumerate(stale):
+        w["files"][a] = (b"stale\n", 0o644)
+        name = b"a%d-delete.patch" % i
+        patches[name] = b"--- a/" + a + b"\n+++ /dev/null\n@@ -1 +0,0 @@\n-stale\n"
+        head += name + b"\n"
+    w["patches"] = patches
+    w["series"] = head + w["series"]
+    return w
+
+
 def old_new_hunk(old, new, v):
     return old.join([b"--- ", b"\n"]) + b"+++ " + new + b"\n@@ -1,3 +1,3 @@\n head\n-v%d\n+v%d\n tail\n" % (v, v + 1)
 
@@ -215,11 +236,14 @@ def run(ctx):
     done = 0
     while done < n:
         if done % 3 == 2:
-            w = gen_chain(rng)
+            w = gen_chain(rng) if done % 2 else gen_chain_stale(rng)
             hist["chain workspace"] += 1
         else:
             # several failing patches: which one a worker meets first must not matter
             w = l3gen.gen_workspace(rng, npatches=rng.randint(2, 7), fail_prob=0.6, nfail=rng.choice([1, 2, 3]))
+            if done % 5 == 1:
+                l3gen.add_load_error(rng, w)
+                hist["a patch whose target cannot be loaded (ENOTDIR)"] += 1
         fps = file_patches(ctx, w)
         if not fps:
             continue          # C06 speaks of workspaces whose patches all parse
